@@ -679,22 +679,31 @@ def sync_jobs(
     else:
         logger.debug(f"Synchronizing job '{src}'...")
 
+    dst_exists = os.path.isdir(dst.path)
     if os.path.isdir(src.path):
         if not dry_run:
             dst.init()
-        _sync_job_workspaces(
-            src=src,
-            dst=dst,
-            strategy=strategy,
-            exclude=exclude,
-            copy=proxy.copy,
-            copytree=proxy.copytree,
-            recursive=recursive,
-            deep=deep,
-        )
+            dst_exists = True
+        if dst_exists:
+            _sync_job_workspaces(
+                src=src,
+                dst=dst,
+                strategy=strategy,
+                exclude=exclude,
+                copy=proxy.copy,
+                copytree=proxy.copytree,
+                recursive=recursive,
+                deep=deep,
+            )
+        else:
+            # Dry run into a job that is not initialized: everything would be copied.
+            proxy.copytree(src.path, dst.path, ignore=_make_ignore(exclude))
 
     if doc_sync not in (DocSync.NO_SYNC, DocSync.COPY):
-        if src.document != dst.document:
+        if not dst_exists:
+            # Accessing the document would initialize the destination job.
+            logger.more("Document would be copied (dry run).")
+        elif src.document != dst.document:
             with proxy.create_doc_backup(dst.document) as dst_proxy:
                 doc_sync(src.document, dst_proxy)
 
